@@ -26,7 +26,7 @@ REQUIRED = {"steps.call_log": {"quick": 2500, "thorough": 100000}, "steps.status
             "steps.dry_run_calls_nothing": {"quick": 300, "thorough": 10000}, "history.retry_final_status": {"quick": 100, "thorough": 4000},
             "history.second_run_status": {"quick": 100, "thorough": 4000}, "steprun.return_iff_not_failed": {"quick": 5000, "thorough": 200000},
             "steps.subprocess_call_log": {"quick": 20, "thorough": 200}}
-REQUIRED_SEEN = {"step_text_repeated": ["under_another_keyword"], "step_status": ["passed", "failed", "error", "pending", "pending_warn", "undefined", "skipped", "untested"],
+REQUIRED_SEEN = {"step_text_repeated": ["under_another_keyword"], "outline_step_text": ["with_special_placeholder"], "step_status": ["passed", "failed", "error", "pending", "pending_warn", "undefined", "skipped", "untested"],
                  "background_step_with_placeholder": ["feature"], "step_skips_rest_of": ["feature", "rule"], "step_definition_kind": ["parameterless_cucumber_expression"], "autoretry_patch_style": ["rows", "as_listed"],
                  "error_exception_class": ["RuntimeError", "ValueError", "KeyError", "NotImplementedError", "OSError", "LookupError",
                                            "TypeError", "ZeroDivisionError", "CustomError", "AttributeError"]}
@@ -270,7 +270,7 @@ def run(spec, mon):
         else:
             # backgrounds at both levels, outlines inside rules, examples placeholders inside background steps
             case = RB.gen_case(rng, p_names=0.1, gen={"p_bg_param": 0.4, "p_background": 0.7, "p_rule_background": 0.6,
-                                                      "p_outline": 0.45, "p_repeat_text": 0.3, "max_steps": 4} if i % 3 == 1 else
+                                                      "p_outline": 0.45, "p_repeat_text": 0.3, "max_steps": 4, "p_reserved_step": 0.5} if i % 3 == 1 else
                                {"p_bg_param": 0.3, "p_cuke": 0.2, "outcomes": OUTCOMES + ["skip_feature", "skip_rule"],
                                 "weights": {"skip_feature": 3.0, "skip_rule": 2.0}, "p_nonpass": 0.25})
             for oc in ("skip_feature", "skip_rule"):
@@ -278,6 +278,8 @@ def run(spec, mon):
                     mon.seen("step_skips_rest_of", oc.split("_")[1])
         if "<x>" in repr([f.get("background") for f in case["program"]["features"]]):
             mon.seen("background_step_with_placeholder", "feature")
+        if case["program"].get("reserved_in_step_text"):
+            mon.seen("outline_step_text", "with_special_placeholder")
         if RB.texts_under_several_keywords(case["program"]):
             # (texts whose id ends in 0 have one definition per step type in the lab: the definition of the step's OWN type is called)
             mon.seen("step_text_repeated", "under_another_keyword")
